@@ -48,7 +48,7 @@ struct Attr {
 
 const STRS: [&str; 14] = ["a", "b", "ab", "c", "x", "ba", "abc", "é", "中", "😀", "xy", "-", "(", ")"];
 const INSENS: [&str; 5] = ["ab", "Xy", "c", "éa", "B"];
-const RANGES: [(char, char); 7] = [('a', 'c'), ('0', '9'), ('α', 'ω'), ('a', 'z'), ('b', 'b'), ('一', '龥'), ('z', 'a')];
+const RANGES: [(char, char); 9] = [('a', 'c'), ('0', '9'), ('α', 'ω'), ('a', 'z'), ('b', 'b'), ('一', '龥'), ('z', 'a'), ('a', 'é'), ('!', '龥')];
 const CHAR_BUILTINS: [&str; 8] = ["ANY", "ASCII_DIGIT", "ASCII_ALPHA", "ASCII_ALPHANUMERIC", "ASCII_HEX_DIGIT", "NEWLINE", "ASCII_ALPHA_UPPER", "ASCII"];
 pub const UNICODE_SAMPLE: [&str; 10] = ["LETTER", "NUMBER", "UPPERCASE_LETTER", "LOWERCASE_LETTER", "HAN", "EMOJI", "PUNCTUATION", "ALPHABETIC", "GREEK", "WHITE_SPACE"];
 
